@@ -188,6 +188,10 @@ func (dc *Decoder) open13(x *Decoded, rec []byte, cidLen int, fromClient bool) {
 		keys := refimpl.TrafficKeys13(dc.S.Suite, secret)
 		k := fmt.Sprintf("%s%d", side, epoch)
 		r, _, err := refimpl.Open13(dc.S.Suite, keys, rec, cidLen, dc.expected[k])
+		if err != nil && dc.expected[k] > 1<<16 {
+			// the header carries only the low bits: also try the reading "the counter started over"
+			r, _, err = refimpl.Open13(dc.S.Suite, keys, rec, cidLen, 0)
+		}
 		if err != nil {
 			return false
 		}
